@@ -12,6 +12,8 @@
 //     e  vita::run(ind, example)             s  one src_interpreter<i_mep> object, run(example)
 //     k  vita::run(ind.get_block(l), ex)     l  the same src_interpreter object, run_locus(l)
 //     L  one reg_lambda_f<i_mep> object, operator()(example)
+//     p  penalty_locus(l) on that src_interpreter object (result p:<n>)
+//     T:<loci>  one reg_lambda_f<team<i_mep>> of the blocks at the loci, operator()(example)
 //     H  long history, see do_case (output " | H <N> <#disagreements> {<run>=<used>~<fresh>}*")
 //     C  that object replaced by a copy of itself, then operator()(example)
 // Output (one line):
@@ -133,6 +135,10 @@ template<class F> std::string guarded(F f)
   catch (const std::bad_variant_access &)
   {
     return "THROW";
+  }
+  catch (const std::exception &)
+  {
+    return "EXC";   // e.g. std::stod inside lexical_cast<double>(string): outside the model
   }
 }
 
@@ -269,6 +275,7 @@ std::string do_case(const std::vector<std::string> &w)
   std::unique_ptr<src_interpreter<i_mep>> si;
   std::unique_ptr<interpreter<i_mep>> bi;
   std::unique_ptr<reg_lambda_f<i_mep>> lam;
+  std::map<std::string, std::unique_ptr<reg_lambda_f<team<i_mep>>>> teams;
 
   const std::size_t nruns(std::stoul(next()));
   for (std::size_t k(0); k < nruns; ++k)
@@ -349,6 +356,33 @@ std::string do_case(const std::vector<std::string> &w)
       r = guarded([&] { return (*lam)(e); });
       s = show_state(lam->int_);
       f = guarded([&] { return run(ind, ex); });
+    }
+    else if (mode == "p")
+    {
+      // penalty_locus(l) on the persistent src_interpreter (private: reached like run_locus)
+      if (!si) si = std::make_unique<src_interpreter<i_mep>>(&ind);
+      const double pv(si->penalty_locus(l));
+      r = "p:" + std::to_string(static_cast<long>(pv));
+      s = show_state(*si);
+    }
+    else if (mode.size() > 2 && mode[0] == 'T' && mode[1] == ':')
+    {
+      // T:<i>,<c>;<i>,<c>...  one reg_lambda_f<team<i_mep>> object per member list (members are
+      // blocks of the genome); F lists what every member returns on a fresh interpreter
+      auto &tl(teams[mode]);
+      std::vector<i_mep> members;
+      for (const auto &m : split_on(mode.substr(2), ';'))
+      {
+        const auto ic(split_on(m, ','));
+        members.push_back(ind.get_block(locus{std::stoul(ic[0]), std::stoul(ic[1])}));
+      }
+      if (!tl) tl = std::make_unique<reg_lambda_f<team<i_mep>>>(team<i_mep>(members));
+      dataframe::example e;
+      e.input = ex;
+      r = guarded([&] { return (*tl)(e); });
+      f.clear();
+      for (const auto &m : members)
+        f += (f.empty() ? "" : ";") + guarded([&] { return run(m, ex); });
     }
     else if (mode == "C")
     {
